@@ -990,6 +990,39 @@ let parse_dec_N l = match l with
 | [] -> None
 | _ :: _ -> option_map N.of_uint (bytes_uint l)
 
+(** val parse_dec_Z : bytes -> z option **)
+
+let parse_dec_Z l = match l with
+| [] -> option_map Z.of_N (parse_dec_N l)
+| n0 :: l' ->
+  (match n0 with
+   | N0 -> option_map Z.of_N (parse_dec_N l)
+   | Npos p ->
+     (match p with
+      | XI p0 ->
+        (match p0 with
+         | XO p1 ->
+           (match p1 with
+            | XI p2 ->
+              (match p2 with
+               | XI p3 ->
+                 (match p3 with
+                  | XO p4 ->
+                    (match p4 with
+                     | XH ->
+                       (match parse_dec_N l' with
+                        | Some n1 ->
+                          (match n1 with
+                           | N0 -> None
+                           | Npos p5 -> Some (Zneg p5))
+                        | None -> None)
+                     | _ -> option_map Z.of_N (parse_dec_N l))
+                  | _ -> option_map Z.of_N (parse_dec_N l))
+               | _ -> option_map Z.of_N (parse_dec_N l))
+            | _ -> option_map Z.of_N (parse_dec_N l))
+         | _ -> option_map Z.of_N (parse_dec_N l))
+      | _ -> option_map Z.of_N (parse_dec_N l)))
+
 (** val dec_pad : nat -> n -> bytes **)
 
 let dec_pad k n0 =
@@ -2650,6 +2683,26 @@ let custom c fs =
 (** val pair_of : pyval -> pyval result **)
 
 let pair_of = function
+| VBytes b0 ->
+  (match b0 with
+   | [] -> Err ValueError
+   | a :: l ->
+     (match l with
+      | [] -> Err ValueError
+      | b :: l0 ->
+        (match l0 with
+         | [] -> Ok (VTuple ((VInt (Z.of_N a)) :: ((VInt (Z.of_N b)) :: [])))
+         | _ :: _ -> Err ValueError)))
+| VStr s ->
+  (match s with
+   | [] -> Err ValueError
+   | a :: l ->
+     (match l with
+      | [] -> Err ValueError
+      | b :: l0 ->
+        (match l0 with
+         | [] -> Ok (VTuple ((VStr (a :: [])) :: ((VStr (b :: [])) :: [])))
+         | _ :: _ -> Err ValueError)))
 | VTuple l ->
   (match l with
    | [] -> Err ValueError
@@ -2670,13 +2723,23 @@ let pair_of = function
         (match l1 with
          | [] -> Ok (VTuple (a :: (b :: [])))
          | _ :: _ -> Err ValueError)))
+| VDict _ -> Err ValueError
+| VIDict _ -> Err ValueError
 | _ -> Err TypeError
 
 (** val tuplify_extra_headers : pyval -> pyval result **)
 
 let tuplify_extra_headers = function
+| VBytes b ->
+  rbind (rmap pair_of (map (fun c -> VInt (Z.of_N c)) b)) (fun l' -> Ok
+    (VTuple l'))
+| VStr s ->
+  rbind (rmap pair_of (map (fun c -> VStr (c :: [])) s)) (fun l' -> Ok
+    (VTuple l'))
 | VTuple l -> rbind (rmap pair_of l) (fun l' -> Ok (VTuple l'))
 | VList l -> rbind (rmap pair_of l) (fun l' -> Ok (VTuple l'))
+| VDict l -> rbind (rmap pair_of (map fst l)) (fun l' -> Ok (VTuple l'))
+| VIDict l -> rbind (rmap pair_of (map fst l)) (fun l' -> Ok (VTuple l'))
 | _ -> Err TypeError
 
 (** val apply_conv : conv -> pyval -> pyval result **)
@@ -2692,6 +2755,14 @@ let apply_conv c v =
     (match v with
      | VBool b -> Ok (VInt (if b then Zpos XH else Z0))
      | VInt z0 -> Ok (VInt z0)
+     | VBytes s ->
+       (match parse_dec_Z s with
+        | Some z0 -> Ok (VInt z0)
+        | None -> Err ValueError)
+     | VStr s ->
+       (match parse_dec_Z s with
+        | Some z0 -> Ok (VInt z0)
+        | None -> Err ValueError)
      | _ -> Err TypeError)
   | CDiscoveryDate ->
     (match v with
@@ -3363,6 +3434,18 @@ let origin_swhid_str idf swhid_str url =
        | _ -> Err TypeError)
     | _ -> Err TypeError)
 
+(** val decode_swhid_if_truthy :
+    (swhid_kind -> text -> (text * bytes) result) -> text -> unit m **)
+
+let decode_swhid_if_truthy swhid_parse k =
+  bind (get_opt k) (fun x ->
+    match x with
+    | Some s ->
+      if truthy s
+      then bind (lift (swhid_of swhid_parse Core s)) (fun w -> setk k w)
+      else ret ()
+    | None -> ret ())
+
 (** val rem_tail :
     (cls -> fields -> bytes result) -> (swhid_kind -> text -> (text * bytes)
     result) -> pyval m **)
@@ -3380,16 +3463,8 @@ let rem_tail idf swhid_parse =
                     bind (setk k_fetcher f') (fun _ ->
                       bind
                         (fold_right (fun k rest ->
-                          bind (get_opt k) (fun x ->
-                            bind
-                              (match x with
-                               | Some s ->
-                                 if truthy s
-                                 then bind
-                                        (lift (swhid_of swhid_parse Core s))
-                                        (fun w -> setk k w)
-                                 else ret ()
-                               | None -> ret ()) (fun _ -> rest))) (ret ())
+                          bind (decode_swhid_if_truthy swhid_parse k)
+                            (fun _ -> rest)) (ret ())
                           (k_snapshot :: (k_release :: (k_revision :: (k_directory :: [])))))
                         (fun _ -> construct_d idf CRawExtrinsicMetadata)))))))))))
 
